@@ -815,8 +815,10 @@ class Dict(dict, base.Symbolic, pg_typing.CustomTyping):
     """Update Dict with the same semantic as update on standard dict."""
     updates = dict(other) if other else {}
     updates.update(kwargs)
+    # Keys are dict keys (not paths): 'x.y' addresses the key 'x.y'.
     self.rebind(
-        updates, raise_on_no_change=False, skip_notification=True)
+        {utils.KeyPath([k]): v for k, v in updates.items()},
+        raise_on_no_change=False, skip_notification=True)
 
   def sym_jsonify(
       self,
